@@ -216,6 +216,18 @@ def scan_scenarios(tier):
     e256 = [3 * i for i in range(1, 53)]
     add("seek_fwd_vs_edit_i256", e256, ["ff100h2"], ["i4"])
     add("seek_rev_vs_edit_i256", e256, ["fr100h2"], ["r153"])
+    # two writer commits inside one next()/prior() of the scanner (seed c09e): the first touches a node on the
+    # scanner's stack (the fast path fails, the re-seek finds the current key), the second removes the current key
+    # before the step after the re-seek is validated.  As one two-operation writer (three preemptions: reached by
+    # the replay of the model's interleavings and by the thorough tier) and as two one-operation writers (two).
+    add("reseek_two_commits_fwd", [1, 2, 3], ["sf"], ["i4", "r1"])
+    add("reseek_two_commits_rev", [2, 3, 4], ["sr"], ["i1", "r4"])
+    # (thread order matters for the bound: when a writer finishes the scheduler continues with the next
+    # unfinished thread in cyclic order for free, so the writer that must run FIRST is the last thread)
+    add("reseek_two_commits_fwd3", [1, 2, 3], ["sf"], ["r1"], ["i4"])
+    add("reseek_two_commits_rev3", [2, 3, 4], ["sr"], ["r4"], ["i1"])
+    add("reseek_two_commits_mid3", [1, 2, 3, 4], ["sf"], ["r2"], ["i5"])
+    add("reseek_two_commits_from3", [1, 2, 3, K(0, 1, 1)], ["ff2"], ["r2"], ["i4"])
     # two writers
     add("scan_two_writers", three, ["sf"], ["r1", "i1"], ["r%d" % c, "i%d" % K(0, 2, 2)])
     add("scan_range_two_writers", three, ["R2-%d" % c], ["r%d" % a], ["i3"])
